@@ -4,8 +4,55 @@ SPEC = dict(
     lean_props="SymVerif.Props.C25",
     driver="C25",
     harness="c25.cpp",
-    theorems=[],
-    rule="whole CSR histories (constructor + calls) per op line",
-    not_covered=[],
-    assumptions=[],
+    theorems=[
+        "SymVerif.C25.get_spec",
+        "SymVerif.C25.set_spec",
+        "SymVerif.C25.fromCoo_spec",
+        "SymVerif.C25.sumDuplicates_spec",
+        "SymVerif.C25.binop_spec",
+        "SymVerif.C25.transpose_spec",
+        "SymVerif.C25.conjugate_spec",
+        "SymVerif.C25.scaleRows_spec",
+        "SymVerif.C25.scaleCols_spec",
+        "SymVerif.C25.diagonal_spec",
+        "SymVerif.C25.isCanonical_of_canon",
+        "SymVerif.C25.mk_of_canon",
+        "SymVerif.C25.step_spec",
+        "SymVerif.C25.history_canon",
+        "SymVerif.C25.history_states_canon",
+        "SymVerif.C25.exOps_ok",
+    ],
+    rule="one whole CSR history per op line (constructor from_coo / raw arrays / zero / jacobian, then calls "
+         "set/get/add/sub/emul/T/conj/srows/scols/diag/chk, optionally a final matmat); distinct = distinct lines; "
+         "non-trivial = every line (each builds at least one matrix and checks it against the dense oracle); tags: "
+         "exh2-*/exh3-* exhaustive sparsity patterns x single set / reads / pairs, coo-dups (duplicates, zeros, "
+         "cancelling duplicates), raw-* (constructor and static predicates on canonical and broken arrays), range / "
+         "scale-zero (precondition violations raise), hist-small / hist-8x8 random histories, matmul, jacobian",
+    level_text="every CSR state reachable by from_coo, set, csr_binop_csr_canonical (add/sub/elementwise mul), transpose, "
+               "conjugate, csr_scale_rows/columns from in-range arguments is canonical and denotes the dense matrix of "
+               "the dense algorithm; get and csr_diagonal return the dense entries; no vector is indexed out of range",
+    technique="Lean 4 proofs about an executable model (checked array accesses), tied to the library by line-by-line "
+              "correspondence of the raw (p, j, x) arrays after every call of generated histories, plus an independent "
+              "dense-matrix oracle in the harness",
+    partial=[
+        "csr_matmat_pass1/2: modelled as is and compared with the library (arrays) and with the dense product (oracle); "
+        "no Lean theorem. Its result rows are unsorted (finding C25-matmat-unsorted).",
+        "CSRMatrix::jacobian: only the push loop is modelled (derivatives are inputs); correspondence + oracle on "
+        "linear maps, no theorem",
+    ],
+    not_covered=[
+        "entries other than Integer/Rational (symbolic entries: is_zero may be indeterminate, add/mul are not a field)",
+        "from_coo / binary-op operands with coordinates outside the matrix (the library does not validate them: UB)",
+        "csr_matmat with B.col > A.col (scratch vectors are sized A.col_: out-of-bounds in the library; the model "
+        "returns Err.oob; never generated)",
+        "unsigned wrap-around (more than 2^32 entries)",
+        "std::sort instability in csr_sort_indices (only the sum of duplicates is observable; rational addition is "
+        "commutative)",
+        "CSRMatrix::eq, is_real, cwrapper entry points",
+    ],
+    assumptions=[
+        "Integer/Rational add, sub, mul and is_zero of the library are exact rational arithmetic (checked on every "
+        "generated case by the correspondence of the x arrays)",
+        "conjugate is the identity on Integer/Rational",
+    ],
 )
